@@ -605,24 +605,78 @@ impl Prop for C16 {
             lib_case(ctx, u(&case["n"]), case["match_pattern"].as_u64().unwrap() as u32, case["is_stream"].as_bool().unwrap(), u(&case["window_end"]), chunk, &batches, ext);
             return;
         }
-        if build_adlt_bin().is_err() {
-            return;
+        replay_scenario(case, ctx);
+    }
+}
+
+/// replay of one server scenario (used by C16 and by the search family of C12)
+pub fn replay_scenario(case: &Value, ctx: &mut Ctx) {
+    if build_adlt_bin().is_err() {
+        return;
+    }
+    let dir = scratch_dir();
+    let file = format!("{dir}/log6.dlt");
+    let (bytes, log) = gen_log(NLOG);
+    std::fs::write(&file, bytes).expect("write log");
+    let s = scen_from_json(case);
+    let mut d = Driver::spawn();
+    match run_scenario(&mut d, &file, &log, &s) {
+        Ok(v) => {
+            for (c, dd, detail) in v {
+                ctx.violation(&c, &dd, || case.clone(), detail);
+            }
         }
-        let dir = scratch_dir();
-        let file = format!("{dir}/log6.dlt");
-        let (bytes, log) = gen_log(NLOG);
-        std::fs::write(&file, bytes).expect("write log");
-        let s = scen_from_json(case);
-        let mut d = Driver::spawn();
-        match run_scenario(&mut d, &file, &log, &s) {
+        Err(e) => ctx.violation("driver_died", "", || case.clone(), format!("{e:?}")),
+    }
+    ctx.eval(true);
+    let _ = std::fs::remove_dir_all(&dir);
+}
+
+/// the search scenarios alone (6 stream filter sets x 6 search filter sets x page sizes x start offsets, following
+/// next_search_idx) on the real server handlers; sharded with ctx.mine(). Used by the C12 explorer, whose statement
+/// covers "streams and searches".
+pub fn search_family(ctx: &mut Ctx) {
+    let dir = scratch_dir();
+    let file = format!("{dir}/log6.dlt");
+    let (bytes, log) = gen_log(NLOG);
+    std::fs::write(&file, bytes).expect("write log");
+    let scen: Vec<Scenario> = scenarios(ctx.tier).into_iter().filter(|s| s.search.is_some()).collect();
+    ctx.begin_family("server_search", &format!("{} paged stream_search sessions on the real server handlers (stream filter set x search filter set x page size x start), union of the pages = matching stream positions", scen.len()));
+    let mut d: Option<Driver> = None;
+    for s in scen {
+        if !ctx.mine() {
+            continue;
+        }
+        let cj = || {
+            let mut j = scen_json(&s);
+            j["family"] = json!("server_search");
+            j
+        };
+        ctx.landmark("server_search");
+        ctx.transitions(s.ticks.len() as u64 + 5);
+        ctx.eval(true);
+        ctx.sample(cj);
+        let drv = d.get_or_insert_with(Driver::spawn);
+        match run_scenario(drv, &file, &log, &s) {
             Ok(v) => {
                 for (c, dd, detail) in v {
-                    ctx.violation(&c, &dd, || case.clone(), detail);
+                    ctx.violation(&c, &dd, cj, detail);
                 }
             }
-            Err(e) => ctx.violation("driver_died", "", || case.clone(), format!("{e:?}")),
+            Err(e) => {
+                ctx.violation(if format!("{e:?}").contains("Hang") { "hang" } else { "driver_died" }, "", cj, format!("{e:?}"));
+                if let Some(mut x) = d.take() {
+                    x.kill();
+                }
+            }
         }
-        ctx.eval(true);
-        let _ = std::fs::remove_dir_all(&dir);
+        if ctx.out_of_time() {
+            break;
+        }
     }
+    if let Some(mut x) = d.take() {
+        x.kill();
+    }
+    ctx.end_family(true);
+    let _ = std::fs::remove_dir_all(&dir);
 }
